@@ -1,0 +1,19 @@
+//go:build verif
+
+// Contracts for the prefix-based secret provider, read by /verif (tqv). Comment-only.
+package prefix
+
+// C13 — a prefix provider admits an address only if one of its prefixes contains it
+// (anyMatch: auxiliary variable, 1 once an IPNet.Contains call of this Get returned true);
+// anything that is not a TCP address is refused. What "contains" means is package net's.
+//@ func (p *Provider) Get(ctx context.Context, remote net.Addr) (secret []byte, handler tq.Handler, err error)
+//@   ghostset anyMatch 0
+//@   requires p != nil && p.loggerProvider != nil
+//@   requires forall k int :: has(p.secrets, k) ==> p.secrets[k].secret != nil
+//@   modifies ghost.anyMatch
+//@   after[C13] IPNet.Contains : ghost.anyMatch = (ret0 ? 1 : ghost.anyMatch)
+//@   ensures[C13] (remote == nil || typeOf(remote) != *net.TCPAddr) ==> (err != nil && secret == nil && handler == nil)
+//@   ensures[C13] ghost.anyMatch == 0 ==> (err != nil && secret == nil && handler == nil)
+//@   ensures[C13] ghost.anyMatch == 1 ==> handler != nil
+//@   loop 1 invariant 0 <= rangecount
+//@   loop 1 invariant[C13] ghost.anyMatch == 0
